@@ -808,17 +808,42 @@ impl MemoryLoc {
                     if self.offset != 0 {
                         addr = builder.ins().iadd_imm(addr, self.offset as i64);
                     }
-                    builder.emit_small_memory_copy(
-                        module.target_config(),
-                        addr,
-                        val,
-                        // this has to be stride for some reason, it can't be size
-                        ty.stride() as u64,
-                        ty.align() as u8,
-                        ty.align() as u8,
-                        true,
-                        MemFlags::trusted(),
-                    )
+                    // only `size` bytes belong to the value, the padding behind it (up to
+                    // `stride`) belongs to whatever comes next: a struct field, an array item,
+                    // another variable. `emit_small_memory_copy` needs a multiple of the alignment,
+                    // so the aligned part is copied with it and the few bytes that are left (always
+                    // less than the alignment) are copied one by one.
+                    let size = ty.size() as u64;
+                    let align = ty.align() as u64;
+                    let bulk = size / align * align;
+
+                    if bulk > 0 {
+                        builder.emit_small_memory_copy(
+                            module.target_config(),
+                            addr,
+                            val,
+                            bulk,
+                            ty.align() as u8,
+                            ty.align() as u8,
+                            true,
+                            MemFlags::trusted(),
+                        );
+                    }
+
+                    let mut off = bulk as i32;
+                    for width in [4, 2, 1] {
+                        while (off + width) as u64 <= size {
+                            let bytes = builder.ins().load(
+                                cranelift::codegen::ir::Type::int_with_byte_size(width as u16)
+                                    .unwrap(),
+                                MemFlags::trusted(),
+                                val,
+                                off,
+                            );
+                            builder.ins().store(MemFlags::trusted(), bytes, addr, off);
+                            off += width;
+                        }
+                    }
                 }
                 Location::Stack(slot) => {
                     // be very explicit to cranelift what we are doing here
@@ -826,7 +851,7 @@ impl MemoryLoc {
                     let mut off = 0;
                     macro_rules! mem_cpy_loop {
                         ($width:expr) => {
-                            while (off + $width) <= (ty.stride() as i32 / $width) * $width {
+                            while (off + $width) <= (ty.size() as i32 / $width) * $width {
                                 let bytes = builder.ins().load(
                                     cranelift::codegen::ir::Type::int_with_byte_size($width)
                                         .unwrap(),
